@@ -150,7 +150,8 @@ func c03Match(o, n ref.SrcLine, cmd MCmd) lineKindC03 {
 	}
 	// A final line that ends in a stray carriage return (content, no line ending) and gains "\n" afterwards reads as
 	// text + CRLF to a line splitter. Byte-wise nothing of the original changed: compare with the CR kept in the text.
-	if o.Ending == "" && strings.HasSuffix(o.Text, "\r") && n.Ending == "\r\n" && !strings.HasSuffix(n.Text, "\r") {
+	// (With several stray CRs the new text still ends in one: then the texts must differ by exactly that CR.)
+	if o.Ending == "" && strings.HasSuffix(o.Text, "\r") && n.Ending == "\r\n" && (!strings.HasSuffix(n.Text, "\r") || o.Text == n.Text+"\r") {
 		n = ref.SrcLine{Text: n.Text + "\r", Ending: "\n"}
 	}
 	if o.Text == n.Text && o.Ending == "" && n.Ending != "" {
